@@ -31,6 +31,7 @@ type Target struct {
 	Fragment []string          `json:"fragment"` // if set: translate only statements assigning these variables (in order), result = last one
 	Params   []string          `json:"params"`   // explicit order of free parameters (optional)
 	Skip     []string          `json:"skip"`     // call prefixes whose expression statements are ignored (log., metrics.)
+	GuardOf  string            `json:"guard_of"` // translate the conjunction of the if-conditions enclosing the first assignment to this variable
 	ReturnOf string            `json:"return_of"` // fragment mode alternative: translate the n-th result expression of the LAST return statement: "0"
 }
 
@@ -121,9 +122,20 @@ func exprStr(e ast.Expr) string {
 	return fmt.Sprintf("<%T>", e)
 }
 
+var coqKeywords = map[string]bool{"end": true, "at": true, "in": true, "as": true, "fun": true, "match": true, "with": true,
+	"return": true, "then": true, "else": true, "if": true, "let": true, "fix": true, "cofix": true, "forall": true, "exists": true,
+	"Type": true, "Prop": true, "Set": true, "using": true, "where": true, "for": true, "mod": true, "until": true}
+
+func mg(name string) string {
+	if coqKeywords[name] {
+		return name + "_"
+	}
+	return name
+}
+
 func flat(path string) string {
 	r := strings.NewReplacer(".", "_", "(", "_", ")", "", ",", "_")
-	return r.Replace(path)
+	return mg(r.Replace(path))
 }
 
 func (t *tr) declareFree(path string, ty typ) string {
@@ -206,8 +218,8 @@ func (t *tr) expr(e ast.Expr) (string, typ) {
 		case "nil":
 			return "None", tErr
 		}
-		if ty, ok := t.vars[x.Name]; ok {
-			return x.Name, ty
+		if ty, ok := t.vars[mg(x.Name)]; ok {
+			return mg(x.Name), ty
 		}
 		if c, ok := t.consts[x.Name]; ok {
 			return "(" + c.val + ")", c.t
@@ -493,7 +505,7 @@ func (t *tr) assigned(stmts []ast.Stmt, set map[string]bool) (hasReturn bool) {
 func (t *tr) lhsName(l ast.Expr) string {
 	switch x := l.(type) {
 	case *ast.Ident:
-		return x.Name
+		return mg(x.Name)
 	case *ast.SelectorExpr:
 		if id, ok := x.X.(*ast.Ident); ok && id.Name == t.recvName {
 			return t.recvName + "_" + x.Sel.Name
@@ -559,8 +571,8 @@ func (t *tr) stmts(list []ast.Stmt, k func() string) string {
 					ty = normType(exprStr(vs.Type))
 					val = t.zero(ty)
 				}
-				t.vars[n.Name] = ty
-				out += "let " + n.Name + " := " + val + " in\n"
+				t.vars[mg(n.Name)] = ty
+				out += "let " + mg(n.Name) + " := " + val + " in\n"
 			}
 		}
 		return out + next()
@@ -972,13 +984,13 @@ func main() {
 					t.recvName = ""
 				}
 			}
-			if tg.Fragment == nil && tg.ReturnOf == "" {
+			if tg.Fragment == nil && tg.ReturnOf == "" && tg.GuardOf == "" {
 				for _, p := range fd.Type.Params.List {
 					ty := normType(exprStr(p.Type))
 					for _, n := range p.Names {
 						if ty == tI64 || ty == tU64 || ty == tBool || ty == tBig {
-							t.vars[n.Name] = ty
-							params = append(params, "("+n.Name+" : "+coqType(ty)+")")
+							t.vars[mg(n.Name)] = ty
+							params = append(params, "("+mg(n.Name)+" : "+coqType(ty)+")")
 						} else {
 							t.opaque[n.Name] = true
 						}
@@ -1005,6 +1017,51 @@ func main() {
 			var multi [][2]string
 			multiCount := 0
 			switch {
+			case tg.GuardOf != "":
+				var conds []ast.Expr
+				found := false
+				var walk func(list []ast.Stmt, stack []ast.Expr)
+				walk = func(list []ast.Stmt, stack []ast.Expr) {
+					for _, st := range list {
+						if found {
+							return
+						}
+						switch x := st.(type) {
+						case *ast.AssignStmt:
+							for _, l := range x.Lhs {
+								if id, ok := l.(*ast.Ident); ok && id.Name == tg.GuardOf {
+									found = true
+									conds = append([]ast.Expr{}, stack...)
+									return
+								}
+							}
+						case *ast.BlockStmt:
+							walk(x.List, stack)
+						case *ast.IfStmt:
+							walk(x.Body.List, append(append([]ast.Expr{}, stack...), x.Cond))
+							if x.Else != nil && !found {
+								walk([]ast.Stmt{x.Else}, append(append([]ast.Expr{}, stack...), &ast.UnaryExpr{Op: token.NOT, X: x.Cond}))
+							}
+						case *ast.ForStmt:
+							walk(x.Body.List, stack)
+						case *ast.RangeStmt:
+							walk(x.Body.List, stack)
+						}
+					}
+				}
+				walk(fd.Body.List, nil)
+				if !found {
+					fail("guard_of: no assignment to %s in %s", tg.GuardOf, tg.Func)
+				}
+				code = "true"
+				for _, c := range conds {
+					cs, ct := t.expr(c)
+					if ct != tBool {
+						fail("guard_of: non-boolean condition")
+					}
+					code = "(andb " + code + " " + cs + ")"
+				}
+				resultType = "bool"
 			case tg.ReturnOf != "":
 				idx, _ := strconv.Atoi(tg.ReturnOf)
 				var rets []*ast.ReturnStmt
@@ -1032,18 +1089,69 @@ func main() {
 					want[v] = true
 				}
 				var sel []ast.Stmt
-				ast.Inspect(fd.Body, func(n ast.Node) bool {
-					if as, ok := n.(*ast.AssignStmt); ok && len(as.Lhs) == 1 {
-						if id, ok := as.Lhs[0].(*ast.Ident); ok && want[id.Name] {
-							sel = append(sel, as)
+				// pure(st): st consists only of assignments to wanted variables (and ifs made of such)
+				var pure func(st ast.Stmt) bool
+				pure = func(st ast.Stmt) bool {
+					switch x := st.(type) {
+					case *ast.AssignStmt:
+						if len(x.Lhs) != 1 {
+							return false
+						}
+						id, ok := x.Lhs[0].(*ast.Ident)
+						return ok && want[id.Name]
+					case *ast.BlockStmt:
+						if len(x.List) == 0 {
+							return false
+						}
+						for _, y := range x.List {
+							if !pure(y) {
+								return false
+							}
+						}
+						return true
+					case *ast.IfStmt:
+						if x.Init != nil || !pure(x.Body) {
+							return false
+						}
+						return x.Else == nil || pure(x.Else)
+					}
+					return false
+				}
+				var walk func(list []ast.Stmt)
+				walk = func(list []ast.Stmt) {
+					for _, st := range list {
+						if pure(st) {
+							sel = append(sel, st)
+							continue
+						}
+						switch x := st.(type) {
+						case *ast.BlockStmt:
+							walk(x.List)
+						case *ast.IfStmt:
+							walk(x.Body.List)
+							if x.Else != nil {
+								walk([]ast.Stmt{x.Else})
+							}
+						case *ast.ForStmt:
+							walk(x.Body.List)
+						case *ast.RangeStmt:
+							walk(x.Body.List)
+						case *ast.SelectStmt:
+							for _, c := range x.Body.List {
+								walk(c.(*ast.CommClause).Body)
+							}
+						case *ast.SwitchStmt:
+							for _, c := range x.Body.List {
+								walk(c.(*ast.CaseClause).Body)
+							}
 						}
 					}
-					return true
-				})
+				}
+				walk(fd.Body.List)
 				if len(sel) == 0 {
 					fail("fragment variables %v not assigned in %s", tg.Fragment, tg.Func)
 				}
-				lastVar := tg.Fragment[len(tg.Fragment)-1]
+				lastVar := mg(tg.Fragment[len(tg.Fragment)-1])
 				code = t.stmts(sel, func() string { return lastVar })
 				resultType = coqType(t.vars[lastVar])
 			default:
